@@ -790,9 +790,13 @@ func (g *Graph) Build(metaData *MetaData, varPool *VarPool) (*Injector, error) {
 	}
 
 	var err error
-	injector.Stmts, err = g.buildStmts(pools, nodeProvidedNodes, initialProvidedNodes)
-	if err != nil {
-		return nil, fmt.Errorf("build statements: %w", err)
+	// When the requested type is supplied by no provider it is handed in as an argument and
+	// returned as is: there is no provider to schedule, so there are no statements to build.
+	if slices.ContainsFunc(g.nodes, func(n *node) bool { return n.providerSpec != nil }) {
+		injector.Stmts, err = g.buildStmts(pools, nodeProvidedNodes, initialProvidedNodes)
+		if err != nil {
+			return nil, fmt.Errorf("build statements: %w", err)
+		}
 	}
 
 	// Inject context.Context argument if async providers exist
